@@ -17,7 +17,7 @@ pub mod stress_case;
 pub mod trace;
 pub mod alloc;
 
-pub use model::{mv, ModelType, Opt};
+pub use model::{mv, ModelType, Opt, VarU32};
 pub use inchunk::InChunk;
 pub use ops::{Ops, TypeOps};
 pub use runner::{run_main, Dispatch, Report};
